@@ -183,9 +183,13 @@ struct Session {
       Bits desc;
       int src = 0;
    };
+   // the operand of a binary / compound operation: a fresh object with the given bits (src 0), the long-lived second
+   // object (src 1) or the object itself (src 2: x op= x, x op x)
+   static const Bits* selfMark() { static const Bits m; return &m; }
    Operand operand(const Bits* o) {
       Operand r;
-      if (o != nullptr) { r.fresh.reset(new DynamicBitset(o->vec())); r.p = r.fresh.get(); r.desc = *o; }
+      if (o == selfMark()) { r.p = cur.get(); r.desc = project(*cur); r.src = 2; }
+      else if (o != nullptr) { r.fresh.reset(new DynamicBitset(o->vec())); r.p = r.fresh.get(); r.desc = *o; }
       else { r.p = oth.get(); r.desc = project(*oth); r.src = 1; }
       return r;
    }
@@ -387,9 +391,9 @@ static void runScript(const char* path) {
       else if (n == "IndexWrite") s.indexWrite(p, v);
       else if (n == "IndexRead") s.indexRead(p);
       else if (n == "Resize") s.resize(p, v);
-      else if (n == "AndAssign" || n == "OrAssign" || n == "XorAssign") { Bits o = bitsOf(a); s.logicAssign(n, &o); }
+      else if (n == "AndAssign" || n == "OrAssign" || n == "XorAssign") { Bits o = bitsOf(a); s.logicAssign(n, a["s"].str() == "self" ? Session::selfMark() : &o); }
       else if (n == "ShlAssign" || n == "ShrAssign") s.shiftAssign(n, p);
-      else if (n == "And" || n == "Or" || n == "Xor" || n == "Eq") { Bits o = bitsOf(a); s.logic(n, &o); }
+      else if (n == "And" || n == "Or" || n == "Xor" || n == "Eq") { Bits o = bitsOf(a); s.logic(n, a["s"].str() == "self" ? Session::selfMark() : &o); }
       else if (n == "Shl" || n == "Shr") s.shift(n, p);
       else if (n == "Not") s.negate();
       else if (n == "Test") s.test(p, a["s"].str());
@@ -456,8 +460,9 @@ static void runRandom(uint64_t seed, long cases, long ops) {
          const bool big = size >= kMaxSize;
          // operand: same size, +-1, unrelated, or the second object
          auto opnd = [&](Bits& store) -> const Bits* {
-            switch (rng.below(5)) {
+            switch (rng.below(6)) {
             case 0: return nullptr;
+            case 5: return Session::selfMark();      // the object itself as operand
             case 1: store = randomBits(rng, size); break;
             case 2: store = randomBits(rng, size + 1); break;
             case 3: store = randomBits(rng, size > 0 ? size - 1 : 0); break;
